@@ -174,7 +174,11 @@ ValueClauses(rec, okreg, okrb, cellsok) ==
         \o (IF badcell = {} THEN <<>> ELSE <<[clause |-> "C07.pool_value", cell |-> MinOf(badcell), lastpaths |-> lp]>>)
         \o (IF res[1].struct = <<>> THEN <<>> ELSE <<[clause |-> res[1].struct[1].clause, lastpaths |-> lp]>>)
 PVerdict(rec) ==
-   IF rec.st # "ok" THEN <<[clause |-> IF rec.st = "timeout" THEN "C07.terminates" ELSE "C07.noexc"]>>
+   IF rec.st # "ok" THEN      \* exception / no answer; when the driver could record them, the lifted assignments of the
+                              \* failing (last) instruction and the pool before it classify the failure
+      <<[clause |-> IF rec.st = "timeout" THEN "C07.terminates" ELSE "C07.noexc",
+         lastpaths |-> IF rec.part = 1 /\ \A t \in InputTrees(rec) : WellTyped(t)
+                       THEN LastPaths(rec, rec.envs[1], InitState(rec.pool0, rec.envs[1])) ELSE {}]>>
    ELSE IF \E t \in InputTrees(rec) : ~WellTyped(t) THEN <<[clause |-> "input.illtyped_lifted_aff"]>>
    ELSE LET unb == (UNION {IF WellTyped(t) THEN Ids(t) ELSE {} : t \in InputTrees(rec) \cup OutputTrees(rec)})
                      \ ((DOMAIN rec.envs[1].id) \cup {rec.pool0[i].n : i \in 1..Len(rec.pool0)}) IN
